@@ -50,6 +50,18 @@ def run_text(ch, n, k, r):
     cell units ((x1,y1,x2,y2) with y counted in half-cells... returned in svg units at scale 8)"""
     rows = [""] * r
     exp = []
+    if ch.startswith("@"):
+        # a run mixing solid and dashed pieces on one axis: still one line, dashed because a part of it is
+        pat = ch[1:]
+        n = len(pat)
+        if set(pat) <= set("-~"):
+            rows.append(" " * k + pat)
+            exp = [(8 * k, 16 * r + 8, 8 * (k + n), 16 * r + 8)]
+        else:
+            for c in pat:
+                rows.append(" " * k + c)
+            exp = [(8 * k + 4, 16 * r, 8 * k + 4, 16 * (r + n))]
+        return "\n".join(rows), exp, any(c in "~:!" for c in pat)
     if ch in "-~_=─━":
         rows.append(" " * k + ch * n)
         x1, x2 = 8 * k, 8 * (k + n)
@@ -104,6 +116,16 @@ class Check(PropertyCheck):
                     if ch in ":!" and n < 2:
                         continue
                     out.append((ch, n, k, r))
+        # runs that change between solid and dashed (either kind first)
+        for _ in range(self.scale(40, 400)):
+            hor = self.rng.chance(1, 2)
+            a, b = ("-", "~") if hor else ("|", self.rng.choice(":!"))
+            if self.rng.chance(1, 2):
+                a, b = b, a
+            pat = ""
+            for j in range(self.rng.range(2, 4)):
+                pat += (a if j % 2 == 0 else b) * self.rng.range(2, 6)
+            out.append(("@" + pat, len(pat), self.rng.below(30), self.rng.below(10)))
         return out
 
     def correspondence(self):
@@ -144,7 +166,7 @@ class Check(PropertyCheck):
             except svgcanon.ParseError:
                 continue
             ls = lines_of(root)
-            if c[1] >= 2:
+            if int(c[1]) >= 2:
                 self.nontrivial.add(t)
             got = sorted(norm(l) for l in ls)
             want = sorted(norm(tuple(F(v) for v in e)) for e in exp)
